@@ -12,7 +12,7 @@ positions a slice / mask selects, a stable sort's permutation, the key-equal row
 group-by.  `_sanitize_user_name` (property C17's subject) is used as the oracle for the sanitised part of
 aggregate names.
 """
-import operator, random, io, math, datetime, json
+import operator, random, io, math, datetime, json, os
 from values import tag_code, kind_code, dtype_wire, err_class
 from extract_consts import Foo, Bar, Baz
 
@@ -23,10 +23,11 @@ D, DT = datetime.date, datetime.datetime
 # ------------------------------------------------------------------------------------------------
 FOO, BAR = Foo(), Bar()
 VALS = [None, True, False, 0, 1, 2, -3, 7, 0.5, 2.0, -1.5, 1 + 2j, 0j, "a", "b", "", "x1", "2020-01-05",
-        D(2020, 1, 2), D(1999, 12, 31), DT(2020, 1, 2, 3, 4), DT(1999, 12, 31), FOO, BAR, b"a", [1], (1,), 3]
+        D(2020, 1, 2), D(1999, 12, 31), DT(2020, 1, 2, 3, 4), DT(1999, 12, 31), FOO, BAR, b"a", [1], (1,), 3,
+        datetime.timedelta(days=1)]
 VSRC = ["None", "True", "False", "0", "1", "2", "-3", "7", "0.5", "2.0", "-1.5", "(1+2j)", "0j", "'a'", "'b'", "''",
         "'x1'", "'2020-01-05'", "date(2020, 1, 2)", "date(1999, 12, 31)", "datetime(2020, 1, 2, 3, 4)",
-        "datetime(1999, 12, 31)", "FOO", "BAR", "b'a'", "[1]", "(1,)", "3"]
+        "datetime(1999, 12, 31)", "FOO", "BAR", "b'a'", "[1]", "(1,)", "3", "timedelta(days=1)"]
 NONE = 0
 # value indices by leaf dtype
 KINDS = {
@@ -35,6 +36,9 @@ KINDS = {
 }
 KIND_NAMES = list(KINDS)
 SCALARS = [0, 1, 4, 5, 8, 11, 13, 18, 20, 22]            # one scalar operand per exact type (None, bool, int, int, float, …)
+# the extended families (`ext`) also use scalars that are falsy, negative, bytes or a timedelta: `int ** -3` is a float, `v / 0`
+# raises, `date + timedelta` is a date, and a truthiness test (`if not other`) takes 0, 0j, False and '' for "no operand"
+SCALARS_X = SCALARS + [2, 3, 6, 10, 12, 15, 24, 28]
 NAMES = [None, "a", "b", "c", "A", "a b", "sum", "x__1", "1x", "", "b_sum", "key", "key2", "a_count", "col", "col_sum",
          "é", "a_sum2", "T", "name", " a", "b ", "A.b", "a-b"]
 
@@ -147,25 +151,32 @@ def _positions(key, n):
     k = key[0]
     if k == "slice":
         return list(range(*slice(key[1], key[2], key[3]).indices(n)))
-    if k == "ints":
+    if k in ("ints", "vints", "tints"):
         return [i + n if i < 0 else i for i in key[1]]
     if k == "int":
         return [key[1] + n if key[1] < 0 else key[1]]
-    if k == "mask":
+    if k in ("mask", "vmask"):
         return [i for i, b in enumerate(key[1]) if b]
     raise ValueError(k)
 
 
 def _pykey(key):
+    """the key object handed to the library.  `vmask` / `vints` are the same positions given as a bool / int *Vector*, `tints` as
+    a tuple: other branches of __setitem__, same meaning"""
     k = key[0]
     if k == "slice":
         return slice(key[1], key[2], key[3])
     if k == "ints":
         return list(key[1])
+    if k == "tints":
+        return tuple(key[1])
     if k == "int":
         return key[1]
     if k == "mask":
         return list(key[1])
+    if k in ("vmask", "vints"):
+        from serif import Vector
+        return Vector(list(key[1]))
     raise ValueError(k)
 
 
@@ -173,7 +184,22 @@ def _keysrc(key):
     k = key[0]
     if k == "slice":
         return ":".join("" if x is None else str(x) for x in key[1:4])
+    if k in ("vmask", "vints"):
+        return f"Vector({list(key[1])!r})"
     return repr(_pykey(key))
+
+
+def _lsrc(node, idxs):
+    """source text of a sequence operand (a list, or a tuple when the node says seq='tuple')"""
+    inner = ", ".join(VSRC[i] for i in idxs)
+    if node.get("seq") == "tuple":
+        return "(" + inner + ("," if len(idxs) == 1 else "") + ")"
+    return "[" + inner + "]"
+
+
+def _lval(node, idxs):
+    vals = [VALS[i] for i in idxs]
+    return tuple(vals) if node.get("seq") == "tuple" else vals
 
 
 def _other(node):
@@ -182,7 +208,7 @@ def _other(node):
     if form[1] == "s" or form[0] == "s":
         v = VALS[node["s"]]
         return v, ["s", tag_code(v)]
-    vals = [VALS[i] for i in node["l"]]
+    vals = _lval(node, node["l"])
     return vals, ["l", [tag_code(x) for x in vals]]
 
 
@@ -270,7 +296,7 @@ SORT_OF = {"leaf": "v", "dict": "t", "csv": "t", "arith": "v", "cmp": "v", "unar
            "dropna": "v", "isna": "v", "toObject": "v", "copy": "v", "vT": "v", "sortV": "v", "getitem": "v", "getV": "v",
            "setitem": "v", "lshift": "v", "rshift": "t", "rshiftDict": "t", "table": "t", "selCol": "v", "selCols": "t",
            "row": "v", "rowsel": "t", "rowV": "t", "tarith": "t", "transposeT": "t", "join": "t", "aggregate": "t",
-           "sortT": "t", "tabSet": "t", "misc": "v"}
+           "sortT": "t", "tabSet": "t", "misc": "v", "renameV": "v", "renameT": "t", "tmisc": "t", "tmiscv": "v"}
 
 # public operations without a dtype rule in the model: judged by the specification (truthfulness) alone
 MISC = {"unique": (lambda a: a.unique(), "{}.unique()"), "invert": (lambda a: ~a, "~{}"),
@@ -300,8 +326,10 @@ def kid_sorts(node):
         return ["t"] + ["v"] * len(node["names"])
     if op == "table":
         return ["v"] * len(node["kids"])
-    if op in ("selCol", "selCols", "row", "rowsel", "transposeT", "aggregate", "sortT", "tabSet"):
+    if op in ("selCol", "selCols", "row", "rowsel", "transposeT", "aggregate", "sortT", "tabSet", "renameT", "tmiscv"):
         return ["t"]
+    if op == "tmisc":
+        return ["t", "t"] if node["fn"] == "lshiftT" else ["t"]
     if op == "rowV":
         return ["t", "v"]
     if op == "tarith":
@@ -321,6 +349,7 @@ class Runner:
         self.src = []          # python statements reproducing the run
         self.nvar = 0
         self.results = {}      # id(node) -> real result (used by the shrinker)
+        self.pyfail = []       # name rules judged in Python (operations the Lean model refuses): texts of disagreements
 
     def var(self):
         self.nvar += 1
@@ -346,8 +375,8 @@ class Runner:
     def ev(self, node):
         """returns (real object, name of the python variable holding it); raises Fail if the code refuses"""
         kids = [self.kid(k, s) for k, s in zip(node.get("kids", []), kid_sorts(node))]
-        if node.get("self") and node.get("form") == "vv" and len(kids) == 2:
-            kids = [kids[0], kids[0]]        # `v op v`: the very same object on both sides
+        if node.get("self") and len(kids) == 2 and (node.get("form") == "vv" or len(set(kid_sorts(node)[:2])) == 1):
+            kids = [kids[0], kids[0]]        # `v op v`, `v << v`, `v[v]`, `t + t`, `t.join(t, …)`: the very same object on both sides
         objs = [k[0] for k in kids]
         srcs = [k[1] for k in kids]
         args = [observe(o) for o in objs]
@@ -361,6 +390,10 @@ class Runner:
         except Exception as e:
             step["out"] = {"err": err_class(e)}
             self.steps.append(step)
+            if name in ("setitem", "tabSet"):
+                # a refused in-place write: what the operand reports afterwards must still be truthful (whatever was rolled back)
+                self.steps.append({"op": "opaque", "p": {"fn": "after-refused-" + name}, "args": args, "or": {},
+                                   "out": {"ok": observe(objs[0])}})
             self.src.append(f"# {v} = {src(v)[0] if isinstance(src(v), tuple) else src(v)}   -> {type(e).__name__}")
             raise Fail()
         step["out"] = {"ok": observe(res)}
@@ -382,12 +415,27 @@ class Runner:
             vals = [VALS[i] for i in node["vals"]]
             nm = node.get("name")
             s = "Vector([" + ", ".join(VSRC[i] for i in node["vals"]) + "]" + (f", name={nm!r}" if nm is not None else "") + ")"
+            ctor = node.get("ctor")
+            if ctor:
+                # other routes to the same inferred vector: a tuple, a one-shot iterator, another Vector
+                wrap = {"tuple": tuple, "iter": iter, "vec": Vector}[ctor]
+                inner = "[" + ", ".join(VSRC[i] for i in node["vals"]) + "]"
+                s = "Vector(" + ("Vector" if ctor == "vec" else ctor) + "(" + inner + ")" + (f", name={nm!r}" if nm is not None else "") + ")"
+                return ("leaf", {"tags": [tag_code(x) for x in vals], "name": nm}, {},
+                        lambda: Vector(wrap(vals), name=nm) if nm is not None else Vector(wrap(vals)), lambda v: s)
             return ("leaf", {"tags": [tag_code(x) for x in vals], "name": nm}, {},
                     lambda: Vector(vals, name=nm) if nm is not None else Vector(vals), lambda v: s)
         if op == "dict":
             cols = [[VALS[i] for i in c] for c in node["cols"]]
             d = dict(zip(node["names"], cols))
             s = "Table({" + ", ".join(f"{n!r}: [" + ", ".join(VSRC[i] for i in c) + "]" for n, c in zip(node["names"], node["cols"])) + "})"
+            if node.get("ctor") == "dictv":
+                # the values are Vectors carrying names of their own: the dict keys are the column names
+                inner = NAMES[1:4]
+                return ("dict", {"names": node["names"], "cols": [[tag_code(x) for x in c] for c in cols]}, {},
+                        lambda: Table({k: Vector(c, name=inner[i % 3]) for i, (k, c) in enumerate(d.items())}),
+                        lambda v: "Table({" + ", ".join(f"{n!r}: Vector([" + ", ".join(VSRC[i] for i in c) + f"], name={inner[j % 3]!r})"
+                                                        for j, (n, c) in enumerate(zip(node["names"], node["cols"]))) + "})")
             return ("dict", {"names": node["names"], "cols": [[tag_code(x) for x in c] for c in cols]}, {},
                     lambda: Table(d), lambda v: s)
         if op == "csv":
@@ -414,11 +462,116 @@ class Runner:
         A = srcs[0]
         if op == "misc":
             if node["fn"] == "rlshift":
-                vals = [VALS[i] for i in node["l"]]
+                vals = _lval(node, node["l"])
                 return ("opaque", {"fn": "rlshift"}, {}, lambda: vals << a,
-                        lambda v: "[" + ", ".join(VSRC[i] for i in node["l"]) + f"] << {A}")
+                        lambda v: _lsrc(node, node["l"]) + f" << {A}")
             f, fmt = MISC[node["fn"]]
             return ("opaque", {"fn": node["fn"]}, {}, lambda: f(a), lambda v: fmt.format(A))
+        if op == "renameV":
+            # a rename in place (after the vector has been looked at): every later operation sees the stored name
+            nm, how = node["name"], node["how"]
+
+            def run():
+                if node.get("warm"):
+                    a.fingerprint(); repr(a)
+                if how == "alias":
+                    a.alias(nm)
+                elif how == "rename":
+                    a.rename(nm)
+                else:
+                    a.name = nm
+                if a.name != nm:
+                    self.pyfail.append(f"after renaming a vector to {nm!r} ({how}) its name is {a.name!r}")
+                return a
+            return ("opaque", {"fn": "rename"}, {}, run,
+                    lambda v: (f"{A}.alias({nm!r})" if how == "alias" else f"{A}.rename({nm!r})" if how == "rename" else f"{A}.name = {nm!r}", f"{v} = {A}"))
+        if op == "renameT":
+            # a column renamed through a live column view / rename_column after the table has been used (names listed, accessors
+            # built, printed): the stored names are what every later operation must go by
+            if not a.cols():
+                raise Fail()
+            j, nm, how = node["j"] % len(a.cols()), node["name"], node["how"]
+            old = a.column_names()
+            if how in ("getitem", "method") and not _first_exact(old, j):
+                how = "cols"
+            want = old[:j] + [nm] + old[j + 1:]
+
+            def run():
+                if node.get("warm"):
+                    a.column_names(); dir(a); a.fingerprint(); repr(a)
+                if how == "getitem":
+                    a[old[j]].name = nm
+                elif how == "method":
+                    a.rename_column(old[j], nm)
+                else:
+                    a.cols(j).name = nm
+                if a.column_names() != want:
+                    self.pyfail.append(f"columns {old!r}: after renaming column {j} to {nm!r} ({how}) the stored names are {a.column_names()!r}")
+                return a
+            return ("opaque", {"fn": "renameT"}, {}, run,
+                    lambda v: ((f"{A}[{old[j]!r}].name = {nm!r}" if how == "getitem" else f"{A}.rename_column({old[j]!r}, {nm!r})" if how == "method"
+                                else f"{A}.cols({j}).name = {nm!r}"), f"{v} = {A}"))
+        if op in ("tmisc", "tmiscv"):
+            # table operations without a rule in the Lean model: the result is judged by truthfulness (C03); where the statement of C18
+            # names the operation (copy, slicing, selection keep stored names in order) the names are judged here, in Python
+            fn = node["fn"]
+            names = a.column_names()
+            nc, nr = len(names), len(a)
+            keep = None
+            if fn in ("neg", "pos", "abs", "invert"):
+                f = {"neg": operator.neg, "pos": operator.pos, "abs": operator.abs, "invert": operator.invert}[fn]
+                run, src = (lambda: f(a)), {"neg": "-{}", "pos": "+{}", "abs": "abs({})", "invert": "~{}"}[fn].format(A)
+            elif fn == "lshiftT":
+                b = objs[1]
+                run, src = (lambda: a << b), f"{A} << {srcs[1]}"
+            elif fn == "lshiftL":
+                idxs = (list(node["l"]) + [NONE] * nc)[:nc]
+                vals = [VALS[i] for i in idxs]
+                run, src = (lambda: a << vals), f"{A} << [" + ", ".join(VSRC[i] for i in idxs) + "]"
+            elif fn in ("eqS", "ltS"):
+                sv = VALS[node["s"]]
+                run, src = ((lambda: a == sv) if fn == "eqS" else (lambda: a < sv)), f"{A} {'==' if fn == 'eqS' else '<'} {VSRC[node['s']]}"
+            elif fn == "copyT":
+                run, src, keep = (lambda: a.copy()), f"{A}.copy()", (list(names) if nc else None)      # (a 0x0 table copies to a plain empty vector)
+            elif fn in ("sum", "max", "min", "mean"):
+                run, src = (lambda: getattr(a, fn)()), f"{A}.{fn}()"
+            elif fn == "sel2dCols":          # t[r0:r1, c0:c1]: a row slice of a column slice
+                r, c = slice(*node["rows"]), slice(*node["colsl"])
+                run, src, keep = (lambda: a[r, c]), f"{A}[{_keysrc(['slice'] + node['rows'])}, {_keysrc(['slice'] + node['colsl'])}]", names[c]
+                if nr == 0 or not names[c] or not len(range(nr)[r]):
+                    keep = None             # zero-row / zero-column results: boundaries (a 0x0 table forgets its columns)
+            elif fn == "sel2dNames":         # t[r0:r1, ('a', 'b')]
+                r = slice(*node["rows"])
+                js = [j % nc for j in node["js"]] if nc else []
+                js = [j for j in js if _first_exact(names, j)]
+                if not js:
+                    raise Fail()
+                key = tuple(names[j] for j in js)
+                run, src, keep = (lambda: a[r, key]), f"{A}[{_keysrc(['slice'] + node['rows'])}, {key!r}]", list(key)
+                if nr == 0 or not len(range(nr)[r]):
+                    keep = None
+            elif fn in ("sel2dInt", "sel2dName"):      # t[r0:r1, j] / t[r0:r1, 'a']: one column of a row slice (a vector)
+                if not nc:
+                    raise Fail()
+                r, j = slice(*node["rows"]), node["j"] % nc
+                if fn == "sel2dName":
+                    if not _first_exact(names, j):
+                        raise Fail()
+                    run, src = (lambda: a[r, names[j]]), f"{A}[{_keysrc(['slice'] + node['rows'])}, {names[j]!r}]"
+                else:
+                    run, src = (lambda: a[r, j]), f"{A}[{_keysrc(['slice'] + node['rows'])}, {j}]"
+                keep = names[j]
+            else:
+                raise ValueError(fn)
+
+            def run2():
+                res = run()
+                if keep is not None or fn in ("sel2dInt", "sel2dName"):
+                    got = res.column_names() if isinstance(res, Table) else res.name if isinstance(res, Vector) else "?"
+                    if got != keep:
+                        self.pyfail.append(f"{src.replace(A, 'T')} on columns named {names!r}: result is named {got!r}, the stored names give {keep!r}")
+                return res
+            return ("opaque", {"fn": fn}, {}, run2, lambda v: src)
         if op in ("arith", "cmp"):
             form, fnname = node["form"], node["fn"]
             table = BIN if op == "arith" else CMP
@@ -433,7 +586,7 @@ class Runner:
                 other, ow = _other(node)
                 scalar = form in ("vs", "sv")
                 ys = [other] * len(xs) if scalar else list(other)
-                osrc = VSRC[node["s"]] if scalar else "[" + ", ".join(VSRC[i] for i in node["l"]) + "]"
+                osrc = VSRC[node["s"]] if scalar else _lsrc(node, node["l"])
             scalar_form = form in ("vs", "sv")
             days = op == "arith" and _date_path(fnname, refl, a, form == "vv", other)
             if op == "cmp":
@@ -510,21 +663,35 @@ class Runner:
                 pos = _positions(key, n)
             except Exception:
                 raise Fail()
-            if any(i < 0 or i >= n for i in pos) or (key[0] == "mask" and len(key[1]) != n) or (key[0] == "ints" and not pos):
+            if any(i < 0 or i >= n for i in pos) or (key[0] in ("mask", "vmask") and len(key[1]) != n) or (key[0] in ("ints", "vints", "tints") and not pos):
                 raise Fail()            # key errors belong to C07/C08
             if val[0] == "s":
                 pv = VALS[val[1]]
                 newvals = [pv] * len(pos)
                 vsrc = VSRC[val[1]]
+            elif val[0] == "self":
+                # `v[:] = v`, `v[::-1] = v`: the value is the very vector being written
+                if op != "setitem" or key[0] != "slice" or len(pos) != n:
+                    raise Fail()
+                pv, newvals, vsrc = a, list(a), A
             else:
                 pv = [VALS[i] for i in val[1]]
+                vform = val[2] if len(val) > 2 else None
                 if key[0] == "int":
+                    if vform == "vec":
+                        raise Fail()        # a vector as an element: nested vectors are not modelled
+                    if vform == "tuple":
+                        pv = tuple(pv)
                     newvals = [pv]          # a single position receives the list itself
                 elif len(pv) != len(pos):
                     raise Fail()
                 else:
                     newvals = pv
                 vsrc = "[" + ", ".join(VSRC[i] for i in val[1]) + "]"
+                if vform == "tuple":
+                    pv, vsrc = tuple(pv), "tuple(" + vsrc + ")"
+                elif vform == "vec":
+                    pv, vsrc = Vector(pv), "Vector(" + vsrc + ")"
             ups = [[i, tag_code(x)] for i, x in zip(pos, newvals)]
             pk = _pykey(key)
             if op == "setitem":
@@ -542,15 +709,15 @@ class Runner:
                 b = objs[1]
                 return ("lshift", {"other": None}, {}, lambda: a << b, lambda v: f"{A} << {srcs[1]}")
             other, ow = _other(node)
-            osrc = VSRC[node["s"]] if node["form"] == "vs" else "[" + ", ".join(VSRC[i] for i in node["l"]) + "]"
+            osrc = VSRC[node["s"]] if node["form"] == "vs" else _lsrc(node, node["l"])
             return ("lshift", {"other": ow}, {}, lambda: a << other, lambda v: f"{A} << {osrc}")
         if op == "rshift":
             if node["form"][1] in "vt":
                 b = objs[1]
                 return ("rshift", {"other": None}, {}, lambda: a >> b, lambda v: f"{A} >> {srcs[1]}")
-            vals = [VALS[i] for i in node["l"]]
+            vals = _lval(node, node["l"])
             return ("rshift", {"other": ["l", [tag_code(x) for x in vals]]}, {}, lambda: a >> vals,
-                    lambda v: f"{A} >> [" + ", ".join(VSRC[i] for i in node["l"]) + "]")
+                    lambda v: f"{A} >> " + _lsrc(node, node["l"]))
         if op == "rshiftDict":
             d = dict(zip(node["names"], objs[1:]))
             if len(d) != len(node["names"]):
@@ -609,7 +776,7 @@ class Runner:
                 node2 = dict(node, form="vs" if form in ("ts", "st") else "vl")
                 other, ow = _other(node2)
                 scalar = form in ("ts", "st")
-                osrc = VSRC[node["s"]] if scalar else "[" + ", ".join(VSRC[i] for i in node["l"]) + "]"
+                osrc = VSRC[node["s"]] if scalar else _lsrc(node, node["l"])
                 orc = []
                 for c in cols:
                     xs = list(c)
@@ -660,9 +827,21 @@ class Runner:
                 pairs += [[None, j] for j in range(len(R)) if j not in matched]
             meth = {"inner": "inner_join", "left": "join", "full": "full_join"}[how]
             lcol, rcol = a.cols()[lk], b.cols()[rk]
+            lsrc, rsrc = f"{A}.cols({lk})", f"{srcs[1]}.cols({rk})"
+            af = node.get("argform")
+            if af == "name":
+                # the key columns given by their stored names (when the name reaches exactly that column)
+                bn = b.column_names()
+                try:
+                    if _first_exact(names, lk) and a[names[lk]] is lcol and _first_exact(bn, rk) and b[bn[rk]] is rcol:
+                        lcol, rcol, lsrc, rsrc = names[lk], bn[rk], repr(names[lk]), repr(bn[rk])
+                except Exception:
+                    pass
+            elif af == "list":
+                lcol, rcol, lsrc, rsrc = [lcol], [rcol], f"[{lsrc}]", f"[{rsrc}]"
             return ("join", {"kind": how, "pairs": pairs}, {},
                     lambda: getattr(a, meth)(b, lcol, rcol, expect="many_to_many"),
-                    lambda v: f"{A}.{meth}({srcs[1]}, {A}.cols({lk}), {srcs[1]}.cols({rk}), expect='many_to_many')")
+                    lambda v: f"{A}.{meth}({srcs[1]}, {lsrc}, {rsrc}, expect='many_to_many')")
         if op == "aggregate":
             if not ncols:
                 raise Fail()
@@ -672,18 +851,44 @@ class Runner:
                 raise Fail()
             p = {"window": node["window"], "keys": keys}
             kw, flat = {}, []
+            af = node.get("argform")
+
+            def colspec(j):
+                """how column j is named in the call: the column object, or (argform 'name') its stored name when that reaches it"""
+                if af in ("name", "acc") and isinstance(names[j], str):
+                    # 'acc': a spelling that is not the stored name but reaches the same column (lower case / sanitised accessor);
+                    # the outputs are named after the STORED name all the same
+                    cands = ([_sanitize_user_name(names[j]), names[j].lower()] if af == "acc" else []) + [names[j]]
+                    for c in cands:
+                        try:
+                            if isinstance(c, str) and a[c] is cols[j]:
+                                return c, repr(c)
+                        except Exception:
+                            pass
+                return cols[j], f"{A}.cols({j})"
+
+            def pack(js):
+                """the argument for a list of columns: a list, a tuple, or (argform 'single') the bare column when there is one"""
+                specs = [colspec(j) for j in js]
+                if af == "single" and len(specs) == 1:
+                    return specs[0]
+                if af == "tuple":
+                    return tuple(x for x, _ in specs), "(" + ", ".join(t for _, t in specs) + ",)"
+                return [x for x, _ in specs], "[" + ", ".join(t for _, t in specs) + "]"
+            asrc_parts = []
             for f in AGGS:
                 js = [j % ncols for j in node.get(f, [])]
                 p[f] = js
                 if js:
-                    kw[f + "_over"] = [cols[j] for j in js]
+                    kw[f + "_over"], t_ = pack(js)
+                    asrc_parts.append(f", {f}_over={t_}")
                     flat += [(j, f, None) for j in js]
             apply = [[nm, j % ncols] for nm, j in node.get("apply", [])]
             if len({nm for nm, _ in apply}) != len(apply):
                 raise Fail()
             p["apply"] = apply
             if apply:
-                kw["apply"] = {nm: (cols[j], len) for nm, j in apply}
+                kw["apply"] = {nm: (colspec(j)[0], len) for nm, j in apply}
                 flat += [(j, "len", nm) for nm, j in apply]
             try:
                 row_group, ng = _groups([list(cols[k]) for k in keys], len(a))
@@ -706,11 +911,10 @@ class Runner:
                     # name object must not be able to answer for another object that merely hashes equal)
                     san.append([base, _sanitize_user_name(base if isinstance(base, str) else str(base))])
             meth = "window" if node["window"] else "aggregate"
-            over = [cols[k] for k in keys]
-            ksrc = "[" + ", ".join(f"{A}.cols({k})" for k in keys) + "]"
-            asrc = "".join(f", {f}_over=[" + ", ".join(f"{A}.cols({j})" for j in p[f]) + "]" for f in AGGS if p[f])
+            over, ksrc = pack(keys)
+            asrc = "".join(asrc_parts)
             if apply:
-                asrc += ", apply={" + ", ".join(f"{nm!r}: ({A}.cols({j}), len)" for nm, j in apply) + "}"
+                asrc += ", apply={" + ", ".join(f"{nm!r}: ({colspec(j)[1]}, len)" for nm, j in apply) + "}"
             return ("aggregate", p, {"agg": agg, "san": san}, lambda: getattr(a, meth)(over=over, **kw),
                     lambda v: f"{A}.{meth}(over={ksrc}{asrc})")
         if op == "sortT":
@@ -772,10 +976,89 @@ TOPS = ["rshift", "rshift", "rshiftDict", "table", "selCols", "rowsel", "rowsel"
         "join", "join", "aggregate", "aggregate", "sortT", "tabSet"]
 
 
-def build(rng, sort, depth, n):
+VOPS_X = VOPS + ["renameV", "renameV", "tmiscv", "tmiscv", "setitem", "setitem", "lshift"]
+TOPS_X = TOPS + ["renameT", "renameT", "renameT", "tmisc", "tmisc", "tmisc", "tmisc"]
+TMISC = ["neg", "pos", "abs", "invert", "lshiftT", "lshiftL", "eqS", "ltS", "copyT", "copyT", "sum", "max", "min", "mean",
+         "sel2dCols", "sel2dCols", "sel2dNames", "sel2dNames"]
+
+
+def _rows(rng):
+    return [rng.choice([None, 0, 1]), rng.choice([None, 1, 2, -1, 9]), rng.choice([None, None, 1, 2, -1])]
+
+
+def build_x(rng, sort, depth, n, big=False):
+    """the extended programs: everything `build` makes, plus the operand FORMS and object STATES it never produces — sequence operands
+    as tuples, keys as bool/int Vectors and tuples, values as Vectors / tuples / the written vector itself, the same object on both
+    sides of <<, >>, v[v], t + t and joins, constructor routes (tuple, iterator, Vector, dict of named Vectors), falsy / negative /
+    bytes / timedelta scalars, key and aggregand columns given by name / bare / as tuples, vectors and table columns renamed in place
+    after the object has been used, and the table operations the model has no rule for (unary, <<, comparison, copy, reductions,
+    2-D selection; judged by truthfulness, names in Python)"""
     if depth <= 0 or rng.random() < 0.12:
-        return rand_leaf(rng, n) if sort == "v" else rand_table_leaf(rng, n)
-    op = rng.choice(VOPS if sort == "v" else TOPS)
+        leaf = rand_leaf(rng, n) if sort == "v" else rand_table_leaf(rng, n)
+        if leaf["op"] == "leaf" and rng.random() < 0.3:
+            leaf["ctor"] = rng.choice(["tuple", "iter", "vec"])
+        if leaf["op"] == "dict" and rng.random() < 0.4:
+            leaf["ctor"] = "dictv"
+        return leaf
+    op = rng.choice(VOPS_X if sort == "v" else TOPS_X)
+    if big and op in ("join", "transposeT"):
+        op = "sortT"              # a many-to-many join / a transposition of a long table is quadratic: C09-C11 / C02 do long ones
+    sub = lambda s: build_x(rng, s, depth - 1, n, big)
+    if op == "renameV":
+        return {"op": op, "name": rng.choice(NAMES), "how": rng.choice(["attr", "attr", "alias", "rename"]), "warm": rng.random() < 0.5,
+                "kids": [sub("v")]}
+    if op == "renameT":
+        return {"op": op, "j": rng.randrange(4), "name": rng.choice(NAMES[1:] + [None]), "how": rng.choice(["cols", "getitem", "method"]),
+                "warm": rng.random() < 0.7, "kids": [sub("t")]}
+    if op == "tmisc":
+        fn = rng.choice(TMISC)
+        node = {"op": op, "fn": fn, "kids": [sub("t"), sub("t")] if fn == "lshiftT" else [sub("t")]}
+        if fn == "lshiftT" and rng.random() < 0.2:
+            node["self"] = True
+        if fn == "lshiftL":
+            node["l"] = [rng.choice(SCALARS_X) for _ in range(3)]
+        if fn in ("eqS", "ltS"):
+            node["s"] = rng.choice(SCALARS_X)
+        if fn.startswith("sel2d"):
+            node.update(rows=_rows(rng), colsl=[rng.choice([None, 0, 1]), rng.choice([None, 1, 2]), None], js=[rng.randrange(4) for _ in range(rng.randint(1, 3))])
+        return node
+    if op == "tmiscv":
+        return {"op": op, "fn": rng.choice(["sel2dInt", "sel2dName"]), "rows": _rows(rng), "j": rng.randrange(4), "kids": [sub("t")]}
+    node = build(rng, sort, 1, n, op=op)          # the plain node of this operation …
+    if op in ("getV", "rowV"):
+        node["kids"][0] = sub(kid_sorts(node)[0])          # (the key sub-program stays a likely mask / position vector)
+    else:
+        node["kids"] = [sub(k) for k in kid_sorts(node)]   # … over sub-programs of the extended kind
+    if op in ("arith", "cmp", "lshift", "tarith", "fillna") and "s" in node and rng.random() < 0.5:
+        node["s"] = rng.choice(SCALARS_X)
+    if "l" in node and rng.random() < 0.5:
+        node["seq"] = "tuple"
+    if len(node["kids"]) == 2 and len(set(kid_sorts(node)[:2])) == 1 and op in ("arith", "cmp", "lshift", "rshift", "getV", "tarith", "join") \
+            and rng.random() < 0.2:
+        node["self"] = True
+    if op == "setitem":
+        key, val = node["key"], node["val"]
+        if key[0] == "mask" and rng.random() < 0.6:
+            key = ["vmask", key[1]]
+        elif key[0] == "ints" and rng.random() < 0.7:
+            key = [rng.choice(["vints", "tints"]), key[1]]
+        if val[0] == "l" and rng.random() < 0.6:
+            val = ["l", val[1], rng.choice(["tuple", "vec"])]
+        if rng.random() < 0.12:
+            key, val = ["slice", None, None, rng.choice([None, -1])], ["self"]
+        node["key"], node["val"] = key, val
+    if op == "join":
+        node["argform"] = rng.choice([None, "name", "name", "list"])
+    if op == "aggregate":
+        node["argform"] = rng.choice([None, "name", "acc", "acc", "single", "tuple"])
+    return node
+
+
+def build(rng, sort, depth, n, op=None):
+    if op is None:
+        if depth <= 0 or rng.random() < 0.12:
+            return rand_leaf(rng, n) if sort == "v" else rand_table_leaf(rng, n)
+        op = rng.choice(VOPS if sort == "v" else TOPS)
     sub = lambda s: build(rng, s, depth - 1, n)
     vals = lambda k=None: leaf_vals(rng, k or rng.choice(KIND_NAMES), n, rng.random() < 0.3)
     if op in ("arith", "cmp"):
@@ -897,12 +1180,22 @@ def expand(spec):
     rng = random.Random(spec["seed"])
     n = rng.choice([0, 1, 2, 3, 3, 3, 4])
     sort = "t" if (spec.get("sort") == "t" or (spec.get("sort") is None and rng.random() < 0.45)) else "v"
+    if spec.get("ext"):
+        n = spec.get("n", n)            # the `big` family: vectors beyond any size threshold a fast path might have
+        return build_x(rng, sort, spec.get("depth", 3), n, big=n > 16), n
     return build(rng, sort, spec.get("depth", 3), n), n
 
 
 def explicit(spec):
     tree, n = expand(spec)
     return {"fam": spec["fam"], "tree": tree, "n": n, **({"known": True} if spec.get("known") else {})}
+
+
+def py_fail_text(r, pid):
+    """name rules of operations the Lean model has no rule for are judged in Python, and reported for C18"""
+    if pid == "C18" and r.pyfail:
+        return "judged in Python (no rule in the Lean model): " + "; ".join(r.pyfail[:3])
+    return None
 
 
 def run_spec(spec):
@@ -922,7 +1215,11 @@ def execute(spec, pid):
     r = run_spec(spec)
     if not r.steps:
         return {"skip": "nothing was evaluated"}
-    return {"fam": spec["fam"], "p": pid, "case": {"steps": r.steps}, "impl": [[s["op"], s["out"]] for s in r.steps]}
+    w = {"fam": spec["fam"], "p": pid, "case": {"steps": r.steps}, "impl": [[s["op"], s["out"]] for s in r.steps]}
+    pf = py_fail_text(r, pid)
+    if pf:
+        w["py_fail"] = pf
+    return w
 
 
 # ------------------------------------------------------------------------------------------------
@@ -1076,6 +1373,187 @@ def name_families(rng, tier):
         yield {"fam": "names", "n": n, "tree": node}
 
 
+def decl_leaf(kind, how, name="a"):
+    """a length-2 vector whose DECLARED dtype is wider than inference gives for its present elements: nullable with the None sliced
+    away (`decl`), or object over elements of one kind (`obj`)"""
+    pool = KINDS[kind]
+    if kind == "object":
+        vals = [pool[0], pool[1]]
+    else:
+        vals = [pool[0], pool[1 % len(pool)]]
+    if how == "decl":
+        return {"op": "getitem", "key": ["slice", 0, 2, None], "kids": [{"op": "leaf", "vals": vals + [NONE], "name": name}]}
+    return {"op": "toObject", "kids": [{"op": "leaf", "vals": vals, "name": name}]}
+
+
+def exhaustive_forms(tier):
+    """the operand forms and object states of `build_x`, scripted over every leaf dtype"""
+    one = lambda node, n=3: {"fam": "forms", "n": n, "tree": node}
+    pairs = ((4, 8), (8, 13), (0, 11), (1, 4), (18, 20), (8, 0), (0, 8), (4, 4))
+    for k1 in KIND_NAMES:
+        for n1 in (False, True):
+            for name in ("a", None):
+                a = typed_leaf(k1, n1, 3, name=name)
+                # keys as Vectors / tuples, values as tuples / Vectors / the vector itself
+                for key in (["vmask", [True, False, True]], ["vints", [0, -1]], ["tints", [2, 0]], ["vints", [1, 1]], ["tints", [0, 0]]):
+                    for s1 in SCALARS:
+                        yield one({"op": "setitem", "key": key, "val": ["s", s1], "kids": [a]})
+                    for s1, s2 in pairs[:4] if name else pairs[4:]:
+                        for vf in (None, "tuple", "vec"):
+                            yield one({"op": "setitem", "key": key, "val": ["l", [s1, s2]] + ([vf] if vf else []), "kids": [a]})
+                for s1, s2 in pairs:
+                    for vf in ("tuple", "vec"):
+                        yield one({"op": "setitem", "key": ["slice", 0, 2, None], "val": ["l", [s1, s2], vf], "kids": [a]})
+                for step in (None, -1):
+                    yield one({"op": "setitem", "key": ["slice", None, None, step], "val": ["self"], "kids": [a]})
+                # the same object on both sides
+                for op, table in (("arith", BIN), ("cmp", CMP)):
+                    for fn in table:
+                        yield one({"op": op, "fn": fn, "form": "vv", "self": True, "kids": [a, a]})
+                yield one({"op": "lshift", "form": "vv", "self": True, "kids": [a, a]})
+                yield one({"op": "rshift", "form": "vv", "self": True, "kids": [a, a]})
+                yield one({"op": "getV", "self": True, "kids": [a, a]})
+                t = {"op": "table", "kids": [a, typed_leaf("int", False, 3, name="k")]}
+                yield one({"op": "tarith", "fn": "add", "form": "tt", "self": True, "kids": [t, t]})
+                yield one({"op": "tmisc", "fn": "lshiftT", "self": True, "kids": [t, t]})
+                for how in ("inner", "left", "full"):
+                    for af in (None, "name", "list"):
+                        yield one({"op": "join", "how": how, "lk": 1, "rk": 1, "adapt": False, "self": True, "argform": af, "kids": [t, t]})
+                for af in (None, "name", "acc", "single", "tuple"):
+                    for w in (False, True):
+                        yield one({"op": "aggregate", "window": w, "keys": [1], "argform": af, "min": [0], "max": [0], "count": [0, 0],
+                                   "apply": [["n", 0]], "kids": [t]})
+                        t2 = {"op": "table", "kids": [typed_leaf(k1, n1, 3, name="A b"), typed_leaf("int", False, 3, name="K")]}
+                        yield one({"op": "aggregate", "window": w, "keys": [1], "argform": af, "min": [0], "count": [0, 1], "kids": [t2]})
+                # constructor routes
+                if name == "a":
+                    vals = a["vals"] if a["op"] == "leaf" else a["kids"][0]["vals"]
+                    for ctor in ("tuple", "iter", "vec"):
+                        yield one({"op": "copy", "kids": [{"op": "leaf", "vals": vals, "name": name, "ctor": ctor}]})
+                    yield one({"op": "selCol", "j": 0, "kids": [{"op": "dict", "names": ["x", "y"], "cols": [vals, vals[::-1]], "ctor": "dictv"}]})
+                # extra scalars (falsy, negative, bytes, timedelta) on either side; sequence operands as tuples
+                for s1 in SCALARS_X[len(SCALARS):] if name else ():
+                    for fn in BIN:
+                        for form in ("vs", "sv"):
+                            yield one({"op": "arith", "fn": fn, "form": form, "s": s1, "kids": [a]})
+                    for fn in CMP:
+                        yield one({"op": "cmp", "fn": fn, "form": "vs", "s": s1, "kids": [a]})
+                    yield one({"op": "fillna", "s": s1, "kids": [a]})
+                    yield one({"op": "lshift", "form": "vs", "s": s1, "kids": [a]})
+                    yield one({"op": "tarith", "fn": "pow", "form": "ts", "s": s1, "kids": [t]})
+                    yield one({"op": "tarith", "fn": "truediv", "form": "st", "s": s1, "kids": [t]})
+                if name is None:
+                    for k2 in KIND_NAMES:
+                        lvals = leaf_vals(random.Random(KIND_NAMES.index(k2) * 7 + n1), k2, 3, n1)
+                        for fn in BIN:
+                            for form in ("vl", "lv"):
+                                yield one({"op": "arith", "fn": fn, "form": form, "l": lvals, "seq": "tuple", "kids": [a]})
+                        for fn in CMP:
+                            yield one({"op": "cmp", "fn": fn, "form": "vl", "l": lvals, "seq": "tuple", "kids": [a]})
+                        yield one({"op": "lshift", "form": "vl", "l": lvals, "seq": "tuple", "kids": [a]})
+                        yield one({"op": "rshift", "form": "vl", "l": lvals, "seq": "tuple", "kids": [a]})
+                        yield one({"op": "tarith", "fn": "add", "form": "tl", "l": lvals, "seq": "tuple", "kids": [t]})
+                        yield one({"op": "tarith", "fn": "sub", "form": "lt", "l": lvals, "seq": "tuple", "kids": [t]})
+                # renamed in place after use; table operations without a model rule
+                for how in ("attr", "alias", "rename"):
+                    for warm in (False, True):
+                        r = {"op": "renameV", "name": "z 1", "how": how, "warm": warm, "kids": [a]}
+                        yield one({"op": "unary", "fn": "neg", "kids": [r]})
+                        yield one({"op": "table", "kids": [r, a]})
+                for how in ("cols", "getitem", "method") if not n1 else ():
+                    for warm in (False, True):
+                        for nm in ("k", "Z z", None):
+                            r = {"op": "renameT", "j": 0, "name": nm, "how": how, "warm": warm, "kids": [t]}
+                            yield one({"op": "aggregate", "window": False, "keys": [0], "sum": [1], "count": [0], "kids": [r]})
+                            yield one({"op": "sortT", "by": 1, "reverse": False, "na_last": True, "kids": [r]})
+                            yield one({"op": "tarith", "fn": "add", "form": "tt", "kids": [r, t]})
+                            yield one({"op": "join", "how": "left", "lk": 1, "rk": 1, "adapt": False, "kids": [r, t]})
+                            yield one({"op": "tmisc", "fn": "copyT", "kids": [r]})
+                for fn in TMISC:
+                    if fn not in ("lshiftT",):
+                        yield one({"op": "tmisc", "fn": fn, "l": [4, 8, 0], "s": 4, "rows": [0, 2, None], "colsl": [0, 1, None], "js": [1, 0], "kids": [t]})
+                for fn in ("sel2dInt", "sel2dName"):
+                    for rows in ([0, 2, None], [None, None, -1], [1, 1, None]):
+                        yield one({"op": "tmiscv", "fn": fn, "rows": rows, "j": 0, "kids": [t]})
+    # vectors beyond any size threshold, the one element that decides the dtype in the LAST position
+    for n in (300, 1100):
+        for base, odd in ((4, NONE), (4, 8), (1, 4), (18, 20), (13, NONE), (8, 11), (8, NONE)):
+            a = {"op": "leaf", "vals": [base] * (n - 1) + [odd], "name": "a"}
+            b = {"op": "leaf", "vals": [5, 6] * (n // 2), "name": "b"}
+            big = lambda node: {"fam": "bigforms", "n": n, "tree": node}
+            for fn in UN:
+                yield big({"op": "unary", "fn": fn, "kids": [a]})
+            for fn in ("add", "truediv", "pow", "mul"):
+                yield big({"op": "arith", "fn": fn, "form": "vs", "s": 5, "kids": [a]})
+                yield big({"op": "arith", "fn": fn, "form": "sv", "s": 5, "kids": [a]})
+                yield big({"op": "arith", "fn": fn, "form": "vv", "kids": [a, b]})
+                yield big({"op": "arith", "fn": fn, "form": "vv", "kids": [b, a]})
+            yield big({"op": "arith", "fn": "add", "form": "vv", "self": True, "kids": [a, a]})
+            for fn in ("eq", "lt", "and"):
+                yield big({"op": "cmp", "fn": fn, "form": "vs", "s": 5, "kids": [a]})
+                yield big({"op": "cmp", "fn": fn, "form": "vv", "kids": [a, b]})
+            for to in ("float", "str", "bool"):
+                yield big({"op": "cast", "to": to, "kids": [a]})
+            for s1 in (4, 8, 13):
+                yield big({"op": "fillna", "s": s1, "kids": [a]})
+                yield big({"op": "lshift", "form": "vs", "s": s1, "kids": [b]})
+                yield big({"op": "setitem", "key": ["int", n - 1], "val": ["s", s1], "kids": [b]})
+                yield big({"op": "setitem", "key": ["int", -1], "val": ["s", s1], "kids": [a]})
+            yield big({"op": "setitem", "key": ["int", n - 1], "val": ["s", NONE], "kids": [b]})
+            yield big({"op": "setitem", "key": ["slice", None, None, None], "val": ["self"], "kids": [a]})
+            for op in ("dropna", "isna", "toObject", "copy", "vT"):
+                yield big({"op": op, "kids": [a]})
+            for fn in ("unique", "invert"):
+                yield big({"op": "misc", "fn": fn, "kids": [a]})
+            yield big({"op": "misc", "fn": "rlshift", "l": [5, 5], "kids": [a]})
+            yield big({"op": "sortV", "reverse": True, "na_last": False, "kids": [a]})
+            yield big({"op": "getitem", "key": ["slice", None, None, -1], "kids": [a]})
+            yield big({"op": "getitem", "key": ["slice", 256, None, None], "kids": [a]})
+            yield big({"op": "getitem", "key": ["mask", [i % 2 == 1 for i in range(n)]], "kids": [a]})
+            yield big({"op": "lshift", "form": "vv", "kids": [b, a]})
+            yield big({"op": "rshift", "form": "vv", "kids": [b, a]})
+            t = {"op": "table", "kids": [a, b]}
+            yield big({"op": "row", "i": 3, "kids": [t]})
+            yield big({"op": "sortT", "by": 1, "reverse": False, "na_last": True, "kids": [t]})
+            yield big({"op": "rowsel", "key": ["slice", None, None, -1], "kids": [t]})
+            yield big({"op": "tarith", "fn": "add", "form": "ts", "s": 5, "kids": [t]})
+            yield big({"op": "tarith", "fn": "mul", "form": "tt", "kids": [t, t]})
+            yield big({"op": "tabSet", "j": 1, "key": ["int", 0], "val": ["s", 8], "kids": [t]})
+            yield big({"op": "tmisc", "fn": "neg", "kids": [t]})
+            yield big({"op": "tmisc", "fn": "copyT", "kids": [t]})
+            for w in (False, True):
+                yield big({"op": "aggregate", "window": w, "keys": [1], "sum": [0], "mean": [0], "max": [0], "count": [0], "kids": [t]})
+            u = {"op": "table", "kids": [{"op": "leaf", "vals": [5, 6, 7], "name": "k"}, {"op": "leaf", "vals": [8, NONE, 13], "name": "w"}]}
+            for how in ("inner", "left", "full"):
+                yield big({"op": "join", "how": how, "lk": 1, "rk": 0, "adapt": False, "kids": [t, u]})
+    # operands whose declared dtype is wider than their contents, on either side of the binary operations
+    for k1 in KIND_NAMES:
+        for how in ("decl", "obj"):
+            a = decl_leaf(k1, how)
+            for fn in UN:
+                yield one({"op": "unary", "fn": fn, "kids": [a]}, 2)
+            for to in CAST:
+                yield one({"op": "cast", "to": to, "kids": [a]}, 2)
+            for s1 in SCALARS:
+                yield one({"op": "fillna", "s": s1, "kids": [a]}, 2)
+                yield one({"op": "setitem", "key": ["int", 0], "val": ["s", s1], "kids": [a]}, 2)
+            for op in ("dropna", "isna", "toObject", "copy"):
+                yield one({"op": op, "kids": [a]}, 2)
+            yield one({"op": "sortV", "reverse": False, "na_last": True, "kids": [a]}, 2)
+            for k2 in KIND_NAMES:
+                for n2 in (False, True):
+                    b = typed_leaf(k2, n2, 2, name="b", variant=1)
+                    for x, y in ((a, b), (b, a)):
+                        for fn in ("add", "truediv", "pow"):
+                            yield one({"op": "arith", "fn": fn, "form": "vv", "kids": [x, y]}, 2)
+                        for fn in ("eq", "lt", "and"):
+                            yield one({"op": "cmp", "fn": fn, "form": "vv", "kids": [x, y]}, 2)
+                        yield one({"op": "lshift", "form": "vv", "kids": [x, y]}, 2)
+                        yield one({"op": "getV", "kids": [x, y]}, 2)
+                        yield one({"op": "join", "how": "full", "lk": 0, "rk": 0, "adapt": False,
+                                   "kids": [{"op": "table", "kids": [x]}, {"op": "table", "kids": [y]}]}, 2)
+
+
 KNOWN_SPECS = [
     {"fam": "known", "known": True, "n": 2, "tree": {"op": "toObject", "kids": [{"op": "leaf", "vals": [4, 0], "name": None}]}},
     {"fam": "known", "known": True, "n": 1, "tree": {"op": "cast", "to": "date", "kids": [{"op": "leaf", "vals": [20], "name": None}]}},
@@ -1089,10 +1567,19 @@ def generate(rng, tier):
         yield s
     yield from exhaustive_structural(tier)
     yield from exhaustive_ops(tier)
+    if not os.environ.get("VERIF_OLD_FAMILIES_ONLY"):
+        yield from exhaustive_forms(tier)        # (uses no randomness: the seeds of the families below stay what they were)
     yield from name_families(rng, tier)
     ntrees = 40000 if tier == "quick" else 1500000
     for i in range(ntrees):
         yield {"fam": "tree", "seed": rng.getrandbits(48), "depth": rng.choice([2, 3, 3, 4, 4])}
+    if os.environ.get("VERIF_OLD_FAMILIES_ONLY"):
+        return          # (for comparing what the families below add: NOTES.md of the gap analysis)
+    # the extended random programs (after the older families, whose seeds stay what they were)
+    for i in range(6000 if tier == "quick" else 300000):
+        yield {"fam": "treex", "seed": rng.getrandbits(48), "depth": rng.choice([2, 3, 3, 4]), "ext": 1}
+    for i in range(36 if tier == "quick" else 1500):
+        yield {"fam": "big", "seed": rng.getrandbits(48), "depth": rng.choice([1, 2, 2]), "ext": 1, "n": rng.choice([40, 300, 300, 1100])}
 
 
 # ------------------------------------------------------------------------------------------------
@@ -1223,7 +1710,7 @@ def shrink(spec):
 
 def snippet(spec):
     r = run_spec(spec if "tree" in spec else explicit(spec))
-    lines = ["import io", "from datetime import date, datetime", "from serif import Vector, Table, read_csv",
+    lines = ["import io", "from datetime import date, datetime, timedelta", "from serif import Vector, Table, read_csv",
              "class Foo: pass", "class Bar: pass", "FOO, BAR = Foo(), Bar()"] + r.src
     if r.nvar:
         last = f"x{r.nvar}"
